@@ -46,6 +46,14 @@ Two repairs are switchable so that the code before the repair stays available fo
 * `killOnSuicidePoll` (fixes/C13-kill-delay-between-polls.diff): a poll that finds `_suicide` set calls
   `kill()`.  Without it, a kill-delay timer firing between two polls after at least one launch only signals
   the (finished) process and every later poll is a no-op: the engine never stops.
+
+`init` is the engine as constructed: `run()` has NOT been called yet (`started = false`).  The first sub-step of the
+engine thread is `run()` (ghost `started`).  Environment operations - in particular `fin`: `ComponentState.stageIn`
+calls `notify_all_producers_finished()` synchronously when no producer is alive at stage-in, and only afterwards the
+Controller calls `run()` - may precede it; `notify_all_producers_finished` arms the kill-delay timer whenever the
+delay is configured and the engine is alive, whether or not it was started.
+Never-ending tasks: `Outcome.hang`; the sub-step out of `running` is not enabled until the task has been killed
+(the engine step is a stutter), so a history in which nobody kills the task leaves the engine `blocked` for ever.
 No Mathlib import (this file is linked into `drv-c13`).
 -/
 namespace St4sd.Repeat
@@ -80,7 +88,9 @@ observer's own stage has output (producers of other stages do not count) -/
 def canConsume (cfg : Cfg) (outs : List Nat) : Bool :=
   cfg.prods.all (fun p => !p.same || outs.contains p.id)
 
-inductive Outcome | ok | fail | raised
+/-- what the task of a launch does: `hang` = a task that never ends by itself (`tail -f`, a monitoring daemon - the
+use-case of `kill-after-producers-done-delay`): `Task.wait()` returns only after somebody called `Task.kill()` -/
+inductive Outcome | ok | fail | raised | hang
   deriving DecidableEq, Repr
 
 inductive Ev | fin | out (c : Nat) | kill | die | adv
@@ -136,6 +146,8 @@ structure St where
   cause : Option Cause
   pollsFin : Nat           -- polls (action(False)) begun with the producers-finished flag set
   books : Nat              -- polls that reached the stop/retry bookkeeping
+  started : Bool           -- `run()` has been called (`_stateDict['runDate'] is not None`); until then the engine
+                           -- exists, is alive and can be notified (ComponentState.stageIn notifies BEFORE run())
   deriving DecidableEq, Repr
 
 def init (cfg : Cfg) : St :=
@@ -143,7 +155,7 @@ def init (cfg : Cfg) : St :=
     retries := cfg.retries, cancel := false, kc := false, hasProc := false, procKilled := false,
     lastLaunched := 0, aged := false, hasOutput := cfg.preOutput, lastOutput := 0,
     outs := cfg.pre.filter cfg.isProd, execLog := [],
-    pc := .idle, cause := none, pollsFin := 0, books := 0 }
+    pc := .idle, cause := none, pollsFin := 0, books := 0, started := false }
 
 /-- `RepeatingEngine.isAlive()` = `exitReason() is None` (lastExecution is False: restarts not modelled) -/
 def alive (s : St) : Bool := !(s.cancel && (!s.hasProc || s.kc))
@@ -195,7 +207,7 @@ def post (cfg : Cfg) (s : St) (pdws didExec rc0 raisedNow : Bool) : St :=
 
 def engStep (cfg : Cfg) (s : St) (o : Outcome) : St :=
   match s.pc with
-  | .idle => { s with pc := .polled s.cancel }
+  | .idle => { s with pc := .polled s.cancel, started := true }
   | .polled true => { s with kc := true, pc := .stopped }
   | .polled false =>
     if s.suicide then
@@ -216,7 +228,9 @@ def engStep (cfg : Cfg) (s : St) (o : Outcome) : St :=
     else
       { s with consume := consume, pc := .ready isNew fc pdws false false false }
   | .running isNew fc pdws o =>
-    { s with pc := .ready isNew fc pdws true (o == .ok && !s.procKilled) (o == .raised) }
+    -- `my_process.wait()`: a task that never ends by itself returns only once it has been killed
+    if o == .hang && !s.procKilled then s
+    else { s with pc := .ready isNew fc pdws true (o == .ok && !s.procKilled) (o == .raised) }
   | .ready _ _ pdws didExec rc0 raisedNow => post cfg s pdws didExec rc0 raisedNow
   | .stopped => s
 
@@ -252,6 +266,12 @@ structure Iter where
 
 def envs (es : List Ev) : List Op := es.map Op.env
 
+/-- the engine thread sits in `wait()` of a task that never ends by itself and that nobody has killed -/
+def blocked (s : St) : Bool :=
+  match s.pc with
+  | .running _ _ _ o => o == .hang && !s.procKilled
+  | _ => false
+
 /-- ops of one iteration, given the state at its start -/
 def iterOps (cfg : Cfg) (s : St) (it : Iter) : List Op :=
   let e := Op.eng it.out
@@ -260,7 +280,14 @@ def iterOps (cfg : Cfg) (s : St) (it : Iter) : List Op :=
   | .checked _ _ =>
     let p2 := p1 ++ envs it.s1 ++ [e] ++ envs it.s2 ++ [e]
     match (run cfg s p2).pc with
-    | .running _ _ _ _ => p2 ++ envs it.s3 ++ [e] ++ envs it.s4 ++ [e]
+    | .running _ _ _ _ =>
+      if it.out == .hang then
+        -- a task that never ends by itself: whatever else happens during this turn happens while it runs, and then
+        -- time passes until no timer is pending (the harness drives every pending timer: `die`); if nobody killed
+        -- the task the poll never gets any further
+        let p3 := p2 ++ envs it.s3 ++ envs it.s4 ++ [Op.env .die, e]
+        if blocked (run cfg s p3) then p3 else p3 ++ [e]
+      else p2 ++ envs it.s3 ++ [e] ++ envs it.s4 ++ [e]
     | _ => p2 ++ envs it.s3 ++ envs it.s4 ++ [e]
   | _ => p1 ++ envs it.s1 ++ envs it.s2 ++ envs it.s3 ++ envs it.s4
 
@@ -269,7 +296,7 @@ flat history -/
 def runScript (cfg : Cfg) : St → List Iter → List St × List Op
   | _, [] => ([], [])
   | s, it :: its =>
-    if s.pc = .stopped then ([], []) else
+    if s.pc = .stopped || blocked s then ([], []) else
     let ops := iterOps cfg s it
     let s' := run cfg s ops
     let (ss, rest) := runScript cfg s' its
